@@ -319,7 +319,23 @@ size_t make_segmentation(size_t n, size_t start, size_t end, size_t epsilon, Fin
     if (end >= start + 2 && in(end - 1) != in(end - 2))
         add_point(in(end - 1), end - 1);
 
-    if (end == n) {
+    // The run of duplicates containing in(end - 1) may continue past the end of this chunk. The chunks that follow
+    // skip it, so the adjustment for the values after the run (see above) must be done here.
+    auto run_end = end - 1;
+    while (run_end + 1 < n && in(run_end + 1) == in(run_end))
+        ++run_end;
+    if (end < n && run_end + 1 < n && run_end > start && in(run_end) == in(run_end - 1)) {
+        if constexpr (std::is_floating_point_v<K>) {
+            K next;
+            if ((next = std::nextafter(in(run_end), std::numeric_limits<K>::infinity())) < in(run_end + 1))
+                add_point(next, run_end);
+        } else {
+            if (in(run_end) + 1 < in(run_end + 1))
+                add_point(in(run_end) + 1, run_end);
+        }
+    }
+
+    if (run_end + 1 == n) {
         // Ensure values greater than the last one are mapped to n
         if constexpr (std::is_floating_point_v<K>) {
             add_point(std::nextafter(in(n - 1), std::numeric_limits<K>::infinity()), n);
